@@ -67,6 +67,9 @@ func streamC23(h *H) {
 		}
 		now := time.Now()
 		base := h.c22GenList(8, now, false, true)
+		for try := 0; try < 3 && len(base) < 3; try++ {
+			base = h.c22GenList(8, now, false, true)
+		}
 		if len(base) == 0 {
 			base = []*c22Snap{{idx: 0, t: c22Anchors[1]}}
 		}
@@ -97,7 +100,7 @@ func streamC23(h *H) {
 			p = data.ExpirePolicy{Tags: data.TagLists{[]data.TagList{{"zz"}, {"a"}, {"b"}, {"a", "b"}, {""}}[h.Intn(5)]}}
 		case r < 6:
 			p = data.ExpirePolicy{Within: data.Duration{Days: -1}}
-		case r < 13: // small policies that really remove something
+		case r < 15: // small policies that really remove something
 			switch h.Intn(5) {
 			case 0:
 				p = data.ExpirePolicy{Last: 1 + h.Intn(2)}
